@@ -68,12 +68,19 @@ class BatchBuilder:
             with crc, offset, size, and timestamp fields. If the batch is full
             or closed, returns None.
         """
+        if self._closed:
+            return None
+        key_bytes, value_bytes = self._serialize(key, value)
+        return self._append_serialized(timestamp, key_bytes, value_bytes, headers)
+
+    def _append_serialized(self, timestamp, key_bytes, value_bytes, headers):
+        """Add a message the producer has serialized already (``send()`` into
+        a batch that was created with ``create_batch()`` and left open)"""
         if headers is None:
             headers = []
         if self._closed:
             return None
 
-        key_bytes, value_bytes = self._serialize(key, value)
         metadata = self._builder.append(
             self._relative_offset,
             timestamp,
@@ -174,9 +181,9 @@ class MessageBatch:
               or
             asyncio.Future that will resolved when message is delivered
         """
-        metadata = self._builder.append(
-            timestamp=timestamp_ms, key=key, value=value, headers=headers
-        )
+        # key and value come from the producer, which has applied its
+        # serializers already
+        metadata = self._builder._append_serialized(timestamp_ms, key, value, headers)
         if metadata is None:
             return None
 
